@@ -267,6 +267,8 @@ class KnownFindings:
     def __init__(self):
         f = VERIF / 'known_findings.json'
         self.entries = json.loads(f.read_text())['findings'] if f.exists() else []
+        for frag in sorted((VERIF / 'findings.d').glob('*.json')) if (VERIF / 'findings.d').exists() else []:
+            self.entries += json.loads(frag.read_text())['findings']
 
     def match(self, prop, sig):
         """open entry whose signature is contained in sig"""
